@@ -50,7 +50,7 @@ PROPS = {
     'C06': dict(module='c06', pfile='P_C06', required=['C06_atomic', 'C06_inplace_refuted', 'C06_update_refuted'],
                 trusted=[KERNEL, EXTRACTION, 'harness/c06.py: strace log parser (unknown system calls on the checkpoint paths fail closed), mapping of every non-checkpoint file of the checkpoint directory to the temporary T',
                          'modelled not verified: POSIX rename atomicity, page-cache persistence across process kill (no power loss), HDF5-internal consistency of a completely written and closed file']),
-    'C05': dict(module='c05', pfile='P_C05', required=['C05_any_history', 'C05_update_full_write', 'C05_batch_frame', 'C05_toggle_frame', 'C05_read_write', 'C05_read_update', 'C05_bounds_read', 'C05_bounds_read_asis_refuted', 'C05_control_core', 'C05_control_aligned', 'C05_control_counters', 'C05_control_zoom', 'C05_control_iters', 'C05_control_threshold', 'C05_control_threshold_unique'],
+    'C05': dict(module='c05', pfile='P_C05', required=['C05_any_history', 'C05_update_full_write', 'C05_batch_frame', 'C05_toggle_frame', 'C05_read_write', 'C05_read_update', 'C05_bounds_read', 'C05_bounds_read_asis_refuted', 'C05_resume_chain', 'C05_control_core', 'C05_control_aligned', 'C05_control_counters', 'C05_control_zoom', 'C05_control_iters', 'C05_control_threshold', 'C05_control_threshold_unique'],
                 trusted=[KERNEL, 'harness/c05.py: canonical deep form of Sampler and bound objects (attribute lists explicit, unknown attributes fail closed; Union.block whitelisted as never read after construction; of an MLPRegressor the weights and the attributes predict() reads)',
                          'the hypotheses of the generic theorem other than the round trip (a batch is a function of the compared state; observables respect the comparison) are validated by bit-for-bit continuations, not proved',
                          'sampler-file codec (SamplerCodec.v) evaluated inside Coq on dumps of the real files: values are opaque tokens by byte pattern, bound groups opaque subtrees (their codec is C09); control layer (Shell2Ctl.v) extracted with ExtrOcamlBasic, order of log-likelihood values supplied as ranks computed by numpy',
